@@ -354,6 +354,70 @@ theorem Inv.wait_reason {s : State} (h : Inv c all s) (hr : waiting s.rpc = true
   cases hw : s.wpc <;> simp_all [compatC, wcls, RC.safe?] <;> cases htd : s.td <;> simp_all
 
 
+/-! ### the batch a formatter method works on is stable -/
+
+/-- steps of the recorder in a safe place leave alone everything of a data set but the list `rbuf` refers to and the
+sub-division bookkeeping -/
+theorem stepR_safe_dsSame {s : State} (h : Inv c all s) (hcl : rcls s.rpc = .safe) (i : Nat) (hi : i < c.n) :
+    DsSame (s.ds i) ((stepR c s).ds i) := by
+  have hrw := h.rbwb i hi
+  cases hr : s.rpc <;> simp [hr, rcls] at hcl
+  · -- idle
+    simp only [stepR, hr]
+    split
+    · exact DsSame.refl _
+    · rename_i op rest ho
+      cases op <;> simp only <;> (try split) <;> exact DsSame.refl _
+  · simp only [stepR, hr]; split <;> exact DsSame.refl _
+  · -- uAppend
+    rename_i j
+    simp only [stepR, hr]
+    split
+    · by_cases hij : i = j
+      · subst hij
+        simp only [setDs_same]
+        exact ⟨rfl, rfl, rfl, rfl, rfl, rfl, upd_other _ _ (by omega)⟩
+      · simp only [setDs_other _ _ hij]; exact DsSame.refl _
+    · exact DsSame.refl _
+  · -- uFlag
+    rename_i j
+    simp only [stepR, hr]
+    by_cases hij : i = j
+    · subst hij; simp only [setDs_same]; exact ⟨rfl, rfl, rfl, rfl, rfl, rfl, rfl⟩
+    · simp only [setDs_other _ _ hij]; exact DsSame.refl _
+  · simp only [stepR, hr]; split <;> exact DsSame.refl _
+  · simp only [stepR, hr]; exact DsSame.refl _
+  · simp only [stepR, hr]; exact DsSame.refl _
+  · simp only [stepR, hr]; exact DsSame.refl _
+
+/-- **The batch the writer's formatter method iterates is not touched by the recorder**: while the writer is inside
+`formatter.write(wbuf)` or `formatter.finalize(wbuf)` for data set `i`, a step of the recording thread leaves the list
+object the method was called with (and the attribute `wbuf`) as they are — so both passes of the quicklogger
+formatter, and the `wbuf.clear()` that follows, see one and the same list. -/
+theorem Inv.batch_stable_W {s : State} (h : Inv c all s) (ho : s.over = false) (i : Nat)
+    (hw : s.wpc = .call i ∨ s.wpc = .dCall i) :
+    ((stepR c s).ds i).lists s.wcall.l = (s.ds i).lists s.wcall.l ∧ ((stepR c s).ds i).wb = (s.ds i).wb ∧
+      s.wcall.l = (s.ds i).wb := by
+  have hk : wIdx s.wpc = some i := by rcases hw with e | e <;> simp [e, wIdx]
+  obtain ⟨hsafe, _, _, hi⟩ := h.excl ho i hk
+  have hl : s.wcall.l = (s.ds i).wb := by
+    have := h.wloc
+    rcases hw with e | e <;> simp only [WLoc, e] at this <;> exact this.2.1
+  have := stepR_safe_dsSame h hsafe i hi
+  exact ⟨by rw [hl]; exact this.lwb, this.wb, hl⟩
+
+/-- … and conversely the writer does not touch the batch `stop()`'s `finalize` iterates -/
+theorem Inv.batch_stable_R {s : State} (h : Inv c all s) (ho : s.over = false) (j : Nat) (hr : s.rpc = .sCall j) :
+    (stepW c s).ds = s.ds ∧ s.rcall.l = (s.ds j).wb := by
+  have hl : s.rcall.l = (s.ds j).wb := by
+    have := h.rloc
+    simp only [RLoc, hr] at this; exact this.2.1
+  have := h.excl' ho (by simp [hr, rcls, RC.safe?])
+  rcases this with e | e
+  · refine ⟨?_, hl⟩
+    simp only [stepW, e]; split <;> rfl
+  · exact ⟨by simp [stepW, e], hl⟩
+
 /-! ### the hang (C17-F3) -/
 
 theorem hung_step (s : State) (t : Tid) (h : s.hung c = true) : (step c s t).hung c = true := by
